@@ -222,6 +222,7 @@ func intrinsicTable() map[string]intrinsic {
 	t[vsName("ConcreteU64")] = t[vsName("Concrete")]
 	t[vsName("ConcreteByte")] = t[vsName("Concrete")]
 	t[vsName("Replace")] = func(ex *Exec, fn *ssa.Function, a []Value) Value {
+		ex.noGuard("vs.Replace")
 		target := ex.argStr(a[0])
 		iv := a[1].(IfaceV)
 		fv, ok := iv.V.(*FuncV)
@@ -281,6 +282,7 @@ func (ex *Exec) assume(c *smt.Term) {
 	if c.IsTrue() {
 		return
 	}
+	ex.noGuard("assume")
 	if c.IsFalse() {
 		panic(&pathEnd{kind: "infeasible", msg: "assume(false)"})
 	}
@@ -462,11 +464,13 @@ func addSync(t map[string]intrinsic) {
 		return IfaceV{}
 	}
 	t["(*sync/atomic.Value).Store"] = func(ex *Exec, fn *ssa.Function, a []Value) Value {
+		ex.noGuard("ghost state")
 		c := ex.cellOf(a[0])
 		ex.ghost[fmt.Sprintf("av:%d", c.id)] = a[1]
 		return nil
 	}
 	t["(*sync/atomic.Value).Swap"] = func(ex *Exec, fn *ssa.Function, a []Value) Value {
+		ex.noGuard("ghost state")
 		c := ex.cellOf(a[0])
 		k := fmt.Sprintf("av:%d", c.id)
 		old, ok := ex.ghost[k]
@@ -477,6 +481,7 @@ func addSync(t map[string]intrinsic) {
 		return old
 	}
 	t["(*sync/atomic.Value).CompareAndSwap"] = func(ex *Exec, fn *ssa.Function, a []Value) Value {
+		ex.noGuard("ghost state")
 		c := ex.cellOf(a[0])
 		k := fmt.Sprintf("av:%d", c.id)
 		old, ok := ex.ghost[k]
@@ -492,6 +497,7 @@ func addSync(t map[string]intrinsic) {
 	noop := func(ex *Exec, fn *ssa.Function, a []Value) Value { return nil }
 	// Mutexes: lock-state cell, double lock is reported.
 	lockState := func(ex *Exec, a []Value) (string, int) {
+		ex.noGuard("mutex operation")
 		c := ex.cellOf(a[0])
 		k := fmt.Sprintf("mu:%d", c.id)
 		v, _ := ex.ghost[k].(int)
@@ -555,6 +561,7 @@ func addSync(t map[string]intrinsic) {
 	}
 	t["(*sync.RWMutex).TryLock"] = t["(*sync.Mutex).TryLock"]
 	t["(*sync.Once).Do"] = func(ex *Exec, fn *ssa.Function, a []Value) Value {
+		ex.noGuard("ghost state")
 		c := ex.cellOf(a[0])
 		k := fmt.Sprintf("once:%d", c.id)
 		if _, done := ex.ghost[k]; done {
@@ -572,6 +579,7 @@ func addSync(t map[string]intrinsic) {
 		return nil
 	}
 	t["(*sync.Pool).Get"] = func(ex *Exec, fn *ssa.Function, a []Value) Value {
+		ex.noGuard("ghost state")
 		c := ex.cellOf(a[0])
 		k := fmt.Sprintf("pool:%d", c.id)
 		if bag, ok := ex.ghost[k].([]Value); ok && len(bag) > 0 {
@@ -592,6 +600,7 @@ func addSync(t map[string]intrinsic) {
 		return IfaceV{}
 	}
 	t["(*sync.Pool).Put"] = func(ex *Exec, fn *ssa.Function, a []Value) Value {
+		ex.noGuard("ghost state")
 		c := ex.cellOf(a[0])
 		k := fmt.Sprintf("pool:%d", c.id)
 		bag, _ := ex.ghost[k].([]Value)
@@ -600,6 +609,7 @@ func addSync(t map[string]intrinsic) {
 	}
 	// sync.Map as an engine map keyed by receiver cell
 	smap := func(ex *Exec, a []Value) *MapObj {
+		ex.noGuard("sync.Map operation")
 		c := ex.cellOf(a[0])
 		k := fmt.Sprintf("smap:%d", c.id)
 		if m, ok := ex.ghost[k].(*MapObj); ok {
